@@ -10,7 +10,7 @@ use std::{
     ffi::{OsStr, OsString},
     fmt::Display,
     fs,
-    io::{self, BufRead, BufReader, Read},
+    io::{self, BufRead, BufReader, Read, Write},
     process::{Command, Stdio},
 };
 
@@ -531,14 +531,18 @@ impl CommandBuilder<'_> {
                 Err(e) => Err(CommandExecutionError::CannotRun(e)),
             },
             ExecAction::Echo => {
-                println!(
-                    "{}",
-                    self.extra_args
-                        .iter()
-                        .map(|arg| arg.to_string_lossy())
-                        .collect::<Vec<_>>()
-                        .join(" ")
-                );
+                // Like a real `echo`, print the arguments as they are: bytes that
+                // are not valid UTF-8 must not be replaced.
+                let mut line = self
+                    .extra_args
+                    .iter()
+                    .map(|arg| arg.as_encoded_bytes())
+                    .collect::<Vec<_>>()
+                    .join(&b' ');
+                line.push(b'\n');
+                io::stdout()
+                    .write_all(&line)
+                    .expect("failed printing to stdout");
                 Ok(CommandResult::Success)
             }
         }
